@@ -155,7 +155,7 @@ def random_script(rng, shape, length):
     for _ in range(length):
         k = rng.choice(clients)
         m = rng.choice(clients) if cross and rng.random() < 0.3 else k
-        prl = rng.choice(["none", "none", "mr", "rm"])
+        prl = rng.choice(["none", "none", "mr", "rm", "m", "r", "n"])
         x = rng.random()
         if x < 0.30:
             a, sy = addr(k, 0.5)
@@ -180,8 +180,9 @@ def random_script(rng, shape, length):
             a, sy = addr(k, 0.05)
             if rng.random() < 0.7:
                 sy = "ip:" + k
-            out.append({"a": "request", "k": k, "m": m, "sid": "none", "ropt": a, "ropts": sy, "ci": NOA, "cis": "lit",
-                        "srck": "zero", "xid": rng.choice(xids), "prl": prl})
+            ci, cs = (NOA, "lit") if rng.random() < 0.5 else (rng.choice(special), rng.choice(["ip:" + k, "ip:" + k, "ip:" + rng.choice(clients), "lit"]))
+            out.append({"a": "request", "k": k, "m": m, "sid": "none", "ropt": a, "ropts": sy, "ci": ci, "cis": cs,
+                        "srck": rng.choice(["zero", "zero", "ci"]) if ci != NOA else "zero", "xid": rng.choice(xids), "prl": prl})
         elif x < 0.78:
             a, sy = addr(k, 0.1)
             out.append({"a": "decline", "k": k, "m": m, "ropt": a, "ropts": rng.choice(["ip:" + k, "offer:" + k, sy]),
@@ -281,7 +282,7 @@ def lifecycle_script(rng, shape, length):
     for k in pool[:rng.randint(2, 3)]:
         if rng.random() < 0.25:
             out.append({"a": "capture", "m": k})
-        dora(k, prl=rng.choice(["none", "none", "mr", "rm"]))
+        dora(k, prl=rng.choice(["none", "none", "mr", "rm", "m", "r", "n"]))
         active.append(k)
     while len(out) < length:
         x = rng.random()
@@ -313,8 +314,14 @@ def lifecycle_script(rng, shape, length):
             if rng.random() < 0.5:
                 out.append({"a": rng.choice(["restart", "reload"])})
         elif x < 0.48:
-            out.append({"a": "request", "k": k, "m": k, "sid": "none", "ropt": NOA, "ropts": "ip:" + k, "ci": NOA, "cis": "lit",
-                        "srck": "zero", "xid": rng.choice(["x1", "x2"]), "prl": "none"})   # INIT-REBOOT for the old address
+            if rng.random() < 0.6:
+                out.append({"a": "request", "k": k, "m": k, "sid": "none", "ropt": NOA, "ropts": "ip:" + k, "ci": NOA, "cis": "lit",
+                            "srck": "zero", "xid": rng.choice(["x1", "x2"]), "prl": rng.choice(["none", "m", "r", "n"])})   # INIT-REBOOT for the old address
+            else:
+                # non-RFC but accepted: option 50 names one address, ciaddr another (option 50 decides)
+                j = rng.choice(active)
+                out.append({"a": "request", "k": k, "m": k, "sid": "none", "ropt": rng.choice(other), "ropts": rng.choice(["ip:" + j, "ip:" + k, "lit"]),
+                            "ci": NOA, "cis": "ip:" + k, "srck": rng.choice(["zero", "ci"]), "xid": rng.choice(["x1", "x2"]), "prl": "none"})
         elif x < 0.54:
             out.append({"a": "decline", "k": k, "m": k, "ropt": NOA, "ropts": "ip:" + k, "sid": "us"})
         elif x < 0.62:
@@ -323,8 +330,20 @@ def lifecycle_script(rng, shape, length):
                 dora(k)
         elif x < 0.72:
             out.append({"a": "tick", "far": rng.random() < 0.45})
-        elif x < 0.82:
+        elif x < 0.79:
             out.append({"a": rng.choice(["restart", "restart", "restart", "reload", "reload", "reload", "reconf"])})
+        elif x < 0.82:
+            # hot swap: replacement built first, it acknowledges something, then the old handler is closed, then a restart
+            out.append({"a": "spawn"})
+            new = [c for c in pool if c not in active]
+            if new and rng.random() < 0.6:
+                dora(new[0])
+                active.append(new[0])
+            else:
+                dora(k)
+            out.append({"a": "closeold"})
+            if rng.random() < 0.6:
+                out.append({"a": rng.choice(["restart", "reload"])})
         elif x < 0.845:
             j = rng.choice(pool)
             if j != k:
@@ -390,6 +409,29 @@ def drive(ctx, binary, script_lines, tag, shared=False, frames=None, scribble=No
         args += ["-frames", frames]
     p = vlib.run_driver(ctx, binary, args, timeout=900)
     return tp, json.loads(p.stdout.strip().splitlines()[-1])
+
+
+def hot_swap(rng, h):
+    """Split half of the 'reload' steps of a history into 'spawn' (replacement handler built while the old one is still
+    open) and a later 'closeold' (the old handler is closed after 0..n further steps): Close must not touch the file."""
+    if not any(a.get("a") == "reload" for a in h) or rng.random() < 0.5:
+        return h
+    out, pending = [], None
+    for i, a in enumerate(h):
+        if a.get("a") == "reload" and pending is None:
+            out.append({"a": "spawn"})
+            pending = rng.randint(0, 3)
+            continue
+        out.append(a)
+        if pending is not None:
+            if pending == 0:
+                out.append({"a": "closeold"})
+                pending = None
+            else:
+                pending -= 1
+    if pending is not None:
+        out.append({"a": "closeold"})
+    return out
 
 
 def script_of(behaviours, cfgs, mode, start_id=0):
@@ -756,7 +798,7 @@ def plan(ctx, check):
     """MC / simulation / random plan per tier. Returns list of dicts."""
     q = ctx.quick
     wide = dict(special=(7, 3), foreign=(3,), prls=("none",), maxtog=2, maxtick=1, maxenv=1)
-    full = dict(special=(7, 0, 3, 4, 1000, 5, 1), foreign=(3, 1), prls=("none", "rm"), maxtog=2, maxtick=2, maxenv=2, restart=True)
+    full = dict(special=(7, 0, 3, 4, 1000, 5, 1), foreign=(3, 1), prls=("none", "rm", "m", "r"), maxtog=2, maxtick=2, maxenv=2, restart=True)
     core = dict(special=(), foreign=(), prls=("none",), maxtog=2, maxtick=1, maxenv=0)
     xmac = dict(special=(3,), foreign=(), prls=("none",), maxtog=1, maxtick=1, maxenv=0, clients="ClientsAll")   # any client id from any MAC
     low = dict(special=(15, 9), foreign=(), prls=("none",), maxtog=2, maxtick=0, maxenv=0)                         # netfilter = lower half of the LAN
@@ -840,7 +882,7 @@ def run_family(ctx, check, plan_fn=None):
                 raise vlib.InfraError("DhcpMC %s: model-level failure (violated=%s, error=%s)\n%s" % (it["label"], r.violated, r.error, r.out[-3000:]))
             states += r.distinct
             trans += r.generated
-            hs = [h for h, _ in bs if h]
+            hs = [hot_swap(rng, h) for h, _ in bs if h]
             if not hs and cex is None:
                 raise vlib.InfraError("TLC exported no behaviours (%s)" % it["label"])
             groups.append(Group(it["label"], it["shape"], [0, 1] if it["shape"] == 0 else [it["shape"]], it["mode"], hs))
@@ -850,7 +892,7 @@ def run_family(ctx, check, plan_fn=None):
                 raise vlib.InfraError("DhcpMC simulate: model-level failure (violated=%s error=%s)\n%s" % (r.violated, r.error, r.out[-2000:]))
             bs, cex = behaviours_of(r)
             cov["tlc"][it["label"]] = r.summary()
-            hs = [h for h, _ in bs if len(h) >= it["depth"]]
+            hs = [hot_swap(rng, h) for h, _ in bs if len(h) >= it["depth"]]
             rng.shuffle(hs)
             hs = hs[:it["num"]]
             if cex is not None:
